@@ -686,9 +686,11 @@ func (w *Writer) AddIndex(r *Reader) (bool, error) {
 					undo()
 					return false, nil
 				}
+				// copy: rhg.hosts is a window into the reader's host table, appending
+				// to it would overwrite the reader's next host group
 				w.hostGroups = append(w.hostGroups, hostGroup{
 					hostSize: rhg.hostSize,
-					hosts:    rhg.hosts,
+					hosts:    append([]byte(nil), rhg.hosts...),
 				})
 				remap.hostRemap = make([]uint16, 0, rhg.hostCount)
 				for h := 0; h < rhg.hostCount; h++ {
